@@ -516,6 +516,77 @@ replay_edges (const char *file)
   vh_sample ("{\"tla_model\":\"tla/CryptRa.tla\",\"edges_replayed_against_crypt_ra\":%d}", n);
 }
 
+/* crypt_gensalt_ra over its whole argument space (every prefix class x counts x rbytes NULL/given x nrbytes from INT_MIN to
+   past every method's need) x every allocator fault position: whatever it answers, NULL comes with nothing allocated and a
+   string is exactly one live block that the caller frees.  Whether the answer is the right one is C10's and C13's business. */
+static const char *const gprefix[] = { "$y$", "$gy$", "$7$", "$2b$", "$2a$", "$2x$", "$2y$", "$6$", "$5$", "$sha1", "$md5", "$1$", "$3$", "_", "", 0, "$9$", "$y$j9T$", "$6$rounds=" };
+#define NGPREFIX ((int) (sizeof gprefix / sizeof *gprefix))
+static const unsigned long gcount[] = { 0, 1, 4, 11, 1000, 5000, 99999, 4294967295UL, (unsigned long) -1 };
+static const int gnrb[] = { INT_MIN, -65536, -1, 0, 1, 2, 3, 4, 8, 15, 16, 17, 31, 32, 64, 65, 256, 512 };
+static unsigned char grb[512];
+static int
+gensalt_ra_case (int pi, int ci, int ri, int ni)
+{
+  char sig[200];
+  int bad = 0;
+  for (long kpos = 0; kpos <= 8 && !bad; kpos++)
+    {
+      vh_ledger_reset ();
+      vh_req_count = 0;
+      vh_fail_at[0] = kpos;
+      vh_seam_armed = 1;
+      errno = (pi + ni) % 3 ? EEXIST : 0;
+      char *g = 0;
+      int k = VH_TRY (0);
+      if (k == 0)
+        {
+          g = crypt_gensalt_ra (gprefix[pi], gcount[ci], ri ? (const char *) grb : 0, gnrb[ni]);
+          VH_END ();
+        }
+      vh_seam_armed = 0;
+      vh_fail_at[0] = 0;
+      int faulted = kpos && vh_req_count >= kpos;
+      vh_stat ("evaluations", 1);
+      vh_stat ("gensalt_ra_argument_cases", 1);
+      snprintf (cj, sizeof cj, "{\"call\":\"crypt_gensalt_ra\",\"prefix\":%s,\"count\":%lu,\"rbytes\":\"%s\",\"nrbytes\":%d,\"failed_request\":%ld,\"replay\":\"G:%d:%d:%d:%d\"", vh_jstr (gprefix[pi]),
+                gcount[ci], ri ? "given" : "NULL", gnrb[ni], faulted ? kpos : 0L, pi, ci, ri, ni);
+      if (k)
+        {
+          snprintf (sig, sizeof sig, "fatal/%s/%.50s", vh_fatal_name (k), vh_fatal_msg);
+          vh_viol (sig, "%s,\"outcome\":\"%s\"}", cj, vh_js (vh_fatal_msg, strlen (vh_fatal_msg)));
+          return 1;
+        }
+      if (faulted && g)
+        bad = 1;                /* a string although a request failed */
+      else if (!g && vh_ledger_live (0) != 0)
+        bad = 2;                /* NULL with something allocated */
+      else if (g && (vh_ledger_live (0) != 1 || !vh_ledger_find (g) || vh_ledger_find (g)->n < strlen (g) + 1))
+        bad = 3;                /* result is not exactly one live malloc block */
+      else if (vh_bad_free)
+        bad = 4;
+      if (g)
+        vh_stat ("gensalt_ra_argument_cases_with_result", 1);
+      if (bad)
+        {
+          static const char *const w[] = { "", "string returned although an allocator request failed", "NULL returned with a block still allocated (leak)",
+            "result is not exactly one live malloc block holding the string", "free/realloc of a pointer that is not a live block" };
+          snprintf (sig, sizeof sig, "gensalt_ra-protocol/%s", w[bad]);
+          vh_viol (sig, "%s,\"result\":%s,\"live_after\":%d,\"requests\":\"%s\"}", cj, vh_jstr (g), vh_ledger_live (0), vh_req_log);
+        }
+      if (g && vh_ledger_find (g))
+        {
+          vh_seam_armed = 1;
+          free (g);
+          vh_seam_armed = 0;
+        }
+      if (!kpos)
+        continue;               /* position 0 is the fault-free run; then positions 1.. until a run has fewer requests */
+      if (!faulted)
+        break;
+    }
+  return bad != 0;
+}
+
 int
 main (int argc, char **argv)
 {
@@ -536,6 +607,15 @@ main (int argc, char **argv)
     {
       int si;
       char ops[64] = "";
+      int g1, g2, g3, g4;
+      if (sscanf (vh_replay, "G:%d:%d:%d:%d", &g1, &g2, &g3, &g4) == 4)
+        {
+          for (size_t i = 0; i < sizeof grb; i++)
+            grb[i] = (unsigned char) (i * 29 + 1);
+          gensalt_ra_case (g1, g2, g3, g4);
+          vh_done ();
+          return 0;
+        }
       if (sscanf (vh_replay, "%d:%63s", &si, ops) < 1)
         vh_internal ("bad replay token");
       make_start (si);
@@ -555,6 +635,15 @@ main (int argc, char **argv)
   for (int si = 0; si < NSTART; si++)
     if (vh_mine ((uint64_t) si))
       bfs (si);
+  for (size_t i = 0; i < sizeof grb; i++)
+    grb[i] = (unsigned char) (i * 29 + 1);
+  uint64_t gi = NSTART;
+  for (int pi = 0; pi < NGPREFIX; pi++)
+    for (unsigned ci = 0; ci < sizeof gcount / sizeof *gcount; ci++)
+      for (int ri = 0; ri < 2; ri++)
+        for (unsigned ni = 0; ni < sizeof gnrb / sizeof *gnrb; ni++)
+          if (vh_mine (gi++))
+            gensalt_ra_case (pi, (int) ci, ri, (int) ni);
   vh_done ();
   return 0;
 }
